@@ -12,9 +12,11 @@
    (Token.Uint / Int: parseNumberParts, normalizeToIntString), and from
    encoding/base64 of the Go standard library (decodeQuantum).
 
-   The text is first read by the tokenizer and value parser of model/Json.v
-   (json_parse_text: RFC 8259 structure, UTF-8, a repeated member NAME is an
-   error, nesting <= 10000) with a number oracle that KEEPS the literal
+   The text is first read by the tokenizer and value parser of model/Json.v in
+   the variant json_parse_text_pj (RFC 8259 structure, UTF-8, a repeated member
+   NAME is an error, nesting <= 10000; number tokens as protojson's parseNumber
+   cuts them on the INTEGER path, see "dangling exponent marker" below) with a
+   number oracle that KEEPS the literal
    (num_keep: integers below 2^53 written without fraction and exponent as
    their value, every other literal as its exact decimal text), then the value
    tree is read against the schema:
@@ -34,6 +36,18 @@
                     followed by a delimiter - and whatever comes after that
                     delimiter is ignored ("12 13" and "12,x" are 12: the inner
                     decoder reads one token)
+     dangling exponent marker
+                    protobuf-go leniency, NOT JSON and not a Tink rule: parseNumber
+                    cuts  <int>[.<frac>]e  (bare 'e' / 'E', no sign, no digits,
+                    followed by a delimiter byte) off as a Number token, and
+                    Token.Uint / Token.Int (parseNumberParts) then ignore the
+                    marker: {"primaryKeyId":1e} reads primary key id 1,
+                    {"key":[{"status":1E}]} status 1, and in the string form
+                    "5e,"  "5e x"  "1e 5" read 5, 5, 1 (but "1e" alone does not:
+                    a byte must follow the marker).  With a sign ("1e+") the
+                    integer conversion fails.  Every uint32 and enum field of
+                    both schemas is affected; the reader accepts such texts and
+                    so does this model (Json.lex_dangling / lex_number_pj)
      enum           a string = exactly one of the value names; or a number: any
                     int32 (open enums: unknown numbers are kept); kept here as the
                     uint32 the binary wire format would yield (n mod 2^32)
@@ -48,15 +62,27 @@
 
    Why reading the generic value tree first gives the same verdicts as the
    schema-driven library (which fails at the first unknown field): every
-   failure is one verdict; a text the generic parser refuses (syntax, UTF-8,
-   repeated name, nesting beyond 10000) is refused by the library as well (a
-   repeated name is a repeated field; messages nest 3 deep, so anything deeper
-   sits under an unknown or mistyped field), and what the generic parser
-   accepts is then judged by the schema alone.
+   failure is one verdict; a text the generic parser (in the variant
+   json_parse_text_pj, whose number tokens are exactly the tokens parseNumber
+   cuts and Token.Uint / Int can convert) refuses - syntax, UTF-8, repeated
+   name, nesting beyond 10000 - is refused by the library as well (a repeated
+   name is a repeated field; messages nest 3 deep, so anything deeper sits under
+   an unknown or mistyped field; a number token only Token.Float could not
+   convert never occurs, these schemas have no float field), and what the
+   generic parser accepts is then judged by the schema alone.  The variant is
+   needed: the C09 tokenizer (json_parse_text) refuses the dangling marker,
+   which is right for structpb (strconv.ParseFloat refuses "1e") and WRONG for
+   the integer fields read here.
 
-   json_text_of_keyset is a printer in a canonical form of this model (camelCase
-   names, enums as numbers, bytes in the URL alphabet without padding): never
-   compared with protojson's output.  No proofs here: proofs/JsonKeysetProofs.v. *)
+   Two printers.  json_text_of_keyset: a canonical form of this model (camelCase
+   names, enums as NUMBERS, bytes in the URL alphabet without padding, unset
+   key data omitted).  json_text_pj_of_keyset: the choices protojson.Marshal
+   makes with the options of keyset.NewJSONWriter (EmitUnpopulated): camelCase
+   names, every field present, enums by NAME when the number has one (else the
+   number), bytes in the STANDARD alphabet WITH padding, unset key data as null;
+   strings escaped by the model's printer and no whitespace (protojson's output
+   injects whitespace at random and escapes differently: compared by the
+   harness modulo those two).  No proofs here: proofs/JsonKeysetProofs.v. *)
 From Coq Require Import List NArith ZArith Bool.
 From Tink Require Import Bytes Base64url Jwt Json.
 Import ListNotations.
@@ -182,7 +208,7 @@ Definition int_of_json (j : json) : option Z :=
   | JNum t repr => int_of_jnum t repr
   | JStr s =>
       if ends_unicode_space s then None
-      else match lex_number s with
+      else match lex_number_pj s with          (* the inner decoder's first token *)
            | Some (l, _) => lit_to_int l
            | None => None
            end
@@ -439,12 +465,12 @@ Definition encrypted_of_fields (f : fields) : option jencrypted :=
 
 (* ---- the two readers of keyset/json_io.go ---- *)
 Definition keyset_of_json_text (s : bytes) : option jkeyset :=
-  match json_parse_text num_keep s with
+  match json_parse_text_pj num_keep s with
   | Some f => keyset_of_fields f
   | None => None
   end.
 Definition encrypted_of_json_text (s : bytes) : option jencrypted :=
-  match json_parse_text num_keep s with
+  match json_parse_text_pj num_keep s with
   | Some f => encrypted_of_fields f
   | None => None
   end.
@@ -493,3 +519,46 @@ Definition keyinfo_ok (k : jkeyinfo) : bool :=
 Definition info_ok (i : jinfo) : bool := (jn_primary i <? two32) && forallb keyinfo_ok (jn_keys i).
 Definition encrypted_ok (e : jencrypted) : bool :=
   bytes_okb (je_ct e) && match je_info e with Some i => info_ok i | None => true end.
+
+(* ================= a printer in protojson's style ================= *)
+(* the first name of the value, as protoreflect's EnumValueDescriptors.ByNumber gives it *)
+Fixpoint name_of (names : list (bytes * N)) (v : N) : option bytes :=
+  match names with
+  | [] => None
+  | (n, x) :: r => if x =? v then Some n else name_of r v
+  end.
+Definition enum_pj (names : list (bytes * N)) (e : N) : json :=
+  match name_of names e with Some n => JStr n | None => enum_num e end.
+
+(* base64.StdEncoding.EncodeToString: '+' '/' for '-' '_', padded with '=' to a multiple of 4 *)
+Definition std_char (c : N) : N := if c =? 45 then 43 else if c =? 95 then 47 else c.
+Definition b64_pad (s : bytes) : bytes :=
+  match (length s mod 4)%nat with
+  | 2%nat => s ++ [61; 61]
+  | 3%nat => s ++ [61]
+  | _ => s
+  end.
+Definition b64_std_encode (v : bytes) : bytes := b64_pad (map std_char (b64_encode v)).
+
+Definition fields_pj_of_keydata (d : jkeydata) : fields :=
+  [(n_typeUrl, JStr (jd_url d)); (n_value, JStr (b64_std_encode (jd_value d)));
+   (n_keyMaterialType, enum_pj material_names (jd_mat d))].
+Definition fields_pj_of_key (k : jkey) : fields :=
+  [(n_keyData, match jk_data k with Some d => JObj (fields_pj_of_keydata d) | None => JNull end);
+   (n_status, enum_pj status_names (jk_status k)); (n_keyId, u32_num (jk_id k));
+   (n_outputPrefixType, enum_pj prefix_names (jk_prefix k))].
+Definition fields_pj_of_keyset (ks : jkeyset) : fields :=
+  [(n_primaryKeyId, u32_num (jks_primary ks));
+   (n_key, JArr (map (fun k => JObj (fields_pj_of_key k)) (jks_keys ks)))].
+Definition json_text_pj_of_keyset (ks : jkeyset) : bytes := json_print_text (fields_pj_of_keyset ks).
+
+Definition fields_pj_of_keyinfo (k : jkeyinfo) : fields :=
+  [(n_typeUrl, JStr (ji_url k)); (n_status, enum_pj status_names (ji_status k)); (n_keyId, u32_num (ji_id k));
+   (n_outputPrefixType, enum_pj prefix_names (ji_prefix k))].
+Definition fields_pj_of_info (i : jinfo) : fields :=
+  [(n_primaryKeyId, u32_num (jn_primary i));
+   (n_keyInfo, JArr (map (fun k => JObj (fields_pj_of_keyinfo k)) (jn_keys i)))].
+Definition fields_pj_of_encrypted (e : jencrypted) : fields :=
+  [(n_encryptedKeyset, JStr (b64_std_encode (je_ct e)));
+   (n_keysetInfo, match je_info e with Some i => JObj (fields_pj_of_info i) | None => JNull end)].
+Definition json_text_pj_of_encrypted (e : jencrypted) : bytes := json_print_text (fields_pj_of_encrypted e).
